@@ -6,7 +6,7 @@ CHECK = {'rule': 'rapid-generated histories of the 16 Filespace ops on a fresh m
                  'ops outside the fixed domain (copy onto existing destination, remove of a view root, escaping paths) are skipped'],
  'essential_labels': {'all': ['via-child-view', 'root-spelling', 'inner-dotdot', 'caller-scribbles', 'writer']},
  'tiers': {'quick': [{'test': '^TestProp$', 'checks': 12000, 'shards': 4, 'timeout': 240}],
-           'thorough': [{'test': '^TestProp$', 'checks': 40000, 'shards': 16, 'timeout': 3000}]}}
+           'thorough': [{'test': '^TestProp$', 'checks': 25000, 'shards': 16, 'timeout': 3000}]}}
 
 TEXT = {'technique': 'model-based stateful property testing (rapid): generated op histories vs. reference tree model, whole-tree comparison after every '
               'step, snapshot/aliasing probes',
